@@ -130,7 +130,7 @@ CHECKS = {
         "level": "Inventory: every todo!/unimplemented!/panic!/unreachable! (P1), every overflow-checked i64 operation outside a reviewed safe table (P2) every unwrap of the by-design refusal Variant::try_empty (P5), an integer-range enumeration whose length test under-reports (P6), every implementation registered without the Optional wrapper whose super_image can refuse (P7), every clause of a sqlparser node that is bound and never read (P8) and every hole of the two implementation dispatch tables (E1) that is reachable from the "
                  "public entry points is reported; the sites on the pinned tree are input-confirmed known findings, any new one is a violation. unwrap/expect, indexing, assert! preconditions and termination are not decided.",
         "design_ref": "DESIGN.md §3 C18",
-        "note": "Trusted: as C16. The 175 P1 findings are one class (unsupported construct -> abort instead of Err); a sample was confirmed by input with a probe binary (DESIGN §6).",
+        "note": "Trusted: as C16. The 179 P1 findings (one per unsupported input construct) are one class (unsupported construct -> abort instead of Err); a sample was confirmed by input with a probe binary (DESIGN §6).",
     },
 }
 
